@@ -131,9 +131,15 @@ func c18(r *Report, s *Sem) {
 	}
 	var owners []string
 	owners = append(owners, "Server")
-	for _, n := range p.LimeT.Scope().Names() {
-		if strings.HasSuffix(n, "TransportListener") || strings.HasSuffix(n, "transportListener") {
-			owners = append(owners, n)
+	if tl := p.Type("TransportListener"); tl != nil {
+		for _, n := range p.LimeT.Scope().Names() {
+			nt := p.Type(n)
+			if nt == nil || types.IsInterface(nt) {
+				continue
+			}
+			if _, isStruct := nt.Underlying().(*types.Struct); isStruct && types.Implements(types.NewPointer(nt), tl.Underlying().(*types.Interface)) {
+				owners = append(owners, n)
+			}
 		}
 	}
 	sort.Strings(owners)
